@@ -59,9 +59,10 @@ class Env:
     """per-case harness state: the object, the ground truth, the observation log"""
 
     def __init__(self, case, helpers):
-        self.main = case["main"]
+        self.main = [list(s) for s in case["main"]]
         self.mterm = case["mterm"]
-        self.handler = case["handler"]     # None or [stmts, term]
+        h = case["handler"]                # None or [stmts, term]
+        self.handler = None if h is None else [[list(s) for s in h[0]], h[1]]
         self.started = False
         self.exited = False
         self.obj = None
@@ -87,7 +88,18 @@ class Env:
                 int(bool(is_new(o))), int(bool(is_susp(o))), int(bool(is_fin(o)))]
 
     def obs_inside(self, site):
-        self.inside.append(self.observe(site))
+        if self.obj is not None:
+            self.inside.append(self.observe(site))
+
+    def kill(self):
+        """end of the case: whatever is left of the body runs to its end without
+        suspending again, so that close()/finalisation of the object is silent"""
+        self.obj = None
+        self.main.clear()
+        self.mterm = "return"
+        if self.handler is not None:
+            self.handler[0].clear()
+            self.handler[1] = "return"
 
     def log_start(self):
         self.started = True
@@ -102,9 +114,10 @@ class Tok:
     """an awaitable which yields `n` tokens and observes the awaiting object
     from inside __next__ / throw / close"""
 
-    def __init__(self, env, n):
+    def __init__(self, env, n, sw=0):
         self.env = env
         self.n = n
+        self.sw = sw
 
     def __await__(self):
         return self
@@ -114,13 +127,16 @@ class Tok:
 
     def __next__(self):
         self.env.obs_inside(S_NEXT)
-        if self.n > 0:
+        if self.n > 0 and self.env.obj is not None:
             self.n -= 1
             return TOKEN
         raise StopIteration(None)
 
     def throw(self, typ, val=None, tb=None):
         self.env.obs_inside(S_THROW)
+        if self.sw and self.env.obj is not None:
+            self.sw = 0
+            return TOKEN
         if val is not None:
             raise val
         raise typ
@@ -140,7 +156,7 @@ def _bodies():
                     if st[0] == "obs":
                         env.obs_inside(S_OBS)
                     elif st[0] == "await":
-                        await Tok(env, st[1])
+                        await Tok(env, st[1], st[2])
                 if env.mterm == "raise":
                     raise BodyError()
             except BaseException:
@@ -150,7 +166,7 @@ def _bodies():
                     if st[0] == "obs":
                         env.obs_inside(S_OBS)
                     elif st[0] == "await":
-                        await Tok(env, st[1])
+                        await Tok(env, st[1], st[2])
                 if env.handler[1] == "raise":
                     raise BodyError()
         finally:
@@ -165,7 +181,7 @@ def _bodies():
                     if st[0] == "obs":
                         env.obs_inside(S_OBS)
                     elif st[0] == "await":
-                        yield from Tok(env, st[1])
+                        yield from Tok(env, st[1], st[2])
                     elif st[0] == "yield":
                         yield YVAL
                 if env.mterm == "raise":
@@ -177,7 +193,7 @@ def _bodies():
                     if st[0] == "obs":
                         env.obs_inside(S_OBS)
                     elif st[0] == "await":
-                        yield from Tok(env, st[1])
+                        yield from Tok(env, st[1], st[2])
                     elif st[0] == "yield":
                         yield YVAL
                 if env.handler[1] == "raise":
@@ -193,7 +209,7 @@ def _bodies():
                     if st[0] == "obs":
                         env.obs_inside(S_OBS)
                     elif st[0] == "await":
-                        await Tok(env, st[1])
+                        await Tok(env, st[1], st[2])
                     elif st[0] == "yield":
                         yield YVAL
                 if env.mterm == "raise":
@@ -205,7 +221,7 @@ def _bodies():
                     if st[0] == "obs":
                         env.obs_inside(S_OBS)
                     elif st[0] == "await":
-                        await Tok(env, st[1])
+                        await Tok(env, st[1], st[2])
                     elif st[0] == "yield":
                         yield YVAL
                 if env.handler[1] == "raise":
@@ -323,11 +339,291 @@ def impl(case):
                     else:
                         raise AssertionError(op)
                 out.append([before, env.inside, res, env.observe(S_OUT)])
-            env.inside = []
             # get rid of the objects quietly
+            env.kill()
+            try:
+                if kind == "agen":
+                    obj.aclose().send(None)
+                else:
+                    obj.close()
+            except BaseException as e:  # noqa
+                if isinstance(e, KeyboardInterrupt) or type(e).__name__ == "ImplTimeout":
+                    raise
             slots = None
             obj = None
-            env.obj = None
         finally:
             sys.unraisablehook = saved_hook
     return out
+
+
+# ----------------------------------------------------------------------------
+# Gallina printer
+# ----------------------------------------------------------------------------
+def coq_stmt(st):
+    if st[0] == "obs":
+        return "SObs"
+    if st[0] == "yield":
+        return "SYield"
+    return f"SAwait {L.nat(st[1])} {L.boolean(st[2])}"
+
+
+def coq_term(t):
+    return "TReturn" if t == "return" else "TRaise"
+
+
+def coq_op(kind, op):
+    k = op[0]
+    if kind != "agen":
+        return {"send": "OSend", "throw": "OThrow", "close": "OClose"}[k]
+    i = L.boolean(op[1])
+    if k in ("asend", "athrow", "aclose"):
+        return f"ONew {i} M{k.capitalize()}"
+    return {"send": "OASend", "throw": "OAThrow", "close": "OAClose"}[k] + " " + i
+
+
+def to_coq(case):
+    h = case["handler"]
+    hs = "None" if h is None else f"(Some ({L.lst([coq_stmt(s) for s in h[0]])}, {coq_term(h[1])}))"
+    body = f"(mkBody {L.lst([coq_stmt(s) for s in case['main']])} {coq_term(case['mterm'])} {hs})"
+    kind = {"coro": "KCoro", "gen": "KGen", "agen": "KAgen"}[case["kind"]]
+    return f"({kind}, {body}, {L.lst([coq_op(case['kind'], o) for o in case['ops']])})"
+
+
+# ----------------------------------------------------------------------------
+# oracle: the helpers against the harness' ground truth
+# ----------------------------------------------------------------------------
+FIELDS = ("site", "started", "exited", "inside", "frame_is_None", "f_lasti<0", "f_back", "running",
+          "suspended", "await_is_None", "is_new", "is_suspended", "is_finished")
+SITES = {S_OUT: "between driver steps", S_START: "body start", S_EXIT: "body exit (finally)",
+         S_OBS: "inside the body", S_NEXT: "inside the awaited object's __next__",
+         S_THROW: "inside the awaited object's throw()", S_CLOSE: "inside the awaited object's close()"}
+
+
+def judge(rec, killed):
+    """None, or what is wrong with the helper results in one observation record"""
+    site, started, exited, inside = rec[0:4]
+    n, u, f = rec[10:13]
+    if exited or killed:
+        truth = "finished"
+    elif inside:
+        truth = "executing"
+    elif started:
+        truth = "suspended"
+    else:
+        truth = "new"
+    said = [name for name, v in (("new", n), ("suspended", u), ("finished", f)) if v]
+    if len(said) > 1:
+        return f"more than one helper is true ({said}); the object is {truth}"
+    got = said[0] if said else "executing"
+    if got != truth:
+        return (f"the object is {truth} (body started={started}, terminated={int(bool(exited or killed))}, "
+                f"on the stack={inside}) but coro_is_new/suspended/finished = {n}/{u}/{f} say '{got}'")
+    return None
+
+
+def oracle(case, ob):
+    ops = case["ops"]
+    if not isinstance(ob, list) or len(ob) != len(ops) or any(
+            not (isinstance(s, list) and len(s) == 4) for s in ob):
+        return f"runner failed: {ob!r}"[:300]
+    kind = case["kind"]
+    killed = False
+    usable = [False, False]      # an awaitable exists in the slot and was not close()d
+    mode = [None, None]
+    for step, (op, (before, inside, res, after)) in enumerate(zip(ops, ob)):
+        where = f"step {step} {op} ({kind})"
+        for rec in [before] + inside:
+            m = judge(rec, killed)
+            if m:
+                return f"{where}, observed {SITES[rec[0]]} before/during the step: {m}; attributes {dict(zip(FIELDS, rec))}"
+        # a throw()/close() that reaches an object which never started ends it without running the body
+        if not before[1] and not killed:
+            k = op[0]
+            if kind != "agen":
+                delivers = k in ("throw", "close")
+            else:
+                i = op[1]
+                delivers = (usable[i] and ((k == "send" and mode[i] in ("athrow", "aclose")) or k == "throw"))
+            if delivers:
+                if after[1]:
+                    return f"{where}: a throw()/close() before the first step started the body"
+                killed = True
+        if kind == "agen":
+            k, i = op[0], op[1]
+            if k in ("asend", "athrow", "aclose"):
+                usable[i] = True
+                mode[i] = k
+            elif k == "close":
+                usable[i] = False
+        m = judge(after, killed)
+        if m:
+            return f"{where}, observed after the step (result {res}): {m}; attributes {dict(zip(FIELDS, after))}"
+    return None
+
+
+# ----------------------------------------------------------------------------
+# generators
+# ----------------------------------------------------------------------------
+def stmt_alphabet(kind, rich):
+    al = [["obs"], ["await", 1, 0], ["await", 0, 0]]
+    if rich:
+        al += [["await", 2, 0], ["await", 1, 1]]
+    if kind != "coro":
+        al.append(["yield"])
+    return al
+
+
+def bodies(kind, maxlen, rich):
+    al = stmt_alphabet(kind, rich)
+    handlers = [None, [[["await", 1, 0]], "return"], [[], "raise"]]
+    if kind != "coro":
+        handlers.append([[["yield"]], "return"])
+    if rich:
+        handlers.append([[["obs"], ["await", 1, 1]], "raise"])
+    for n in range(maxlen + 1):
+        for main in itertools.product(al, repeat=n):
+            for mterm in ("return", "raise"):
+                for h in handlers:
+                    yield {"kind": kind, "main": [list(s) for s in main], "mterm": mterm,
+                           "handler": None if h is None else [[list(s) for s in h[0]], h[1]]}
+
+
+def plain_histories(depth):
+    for n in range(1, depth + 1):
+        for h in itertools.product(("send", "throw", "close"), repeat=n):
+            yield [[k] for k in h]
+
+
+def agen_histories(depth, nslots):
+    """all histories of exactly `depth` operations which never touch an empty slot"""
+    def rec(hist, have, d):
+        if d == 0:
+            yield list(hist)
+            return
+        for i in range(nslots):
+            for k in ("asend", "athrow", "aclose"):
+                yield from rec(hist + [[k, i]], have | {i}, d - 1)
+            if i in have:
+                for k in ("send", "throw", "close"):
+                    yield from rec(hist + [[k, i]], have, d - 1)
+    yield from rec([], frozenset(), depth)
+
+
+def random_body(rng, kind):
+    al = stmt_alphabet(kind, True)
+    main = [list(rng.choice(al)) for _ in range(rng.randint(0, 4))]
+    h = None
+    if rng.random() < 0.6:
+        h = [[list(rng.choice(al)) for _ in range(rng.randint(0, 3))], rng.choice(["return", "raise"])]
+    return {"kind": kind, "main": main, "mterm": rng.choice(["return", "raise"]), "handler": h}
+
+
+def random_history(rng, kind, n):
+    if kind != "agen":
+        return [[rng.choice(["send", "send", "send", "throw", "close"])] for _ in range(n)]
+    ops = []
+    have = set()
+    for _ in range(n):
+        i = rng.randint(0, 1) if rng.random() < 0.5 else 0
+        r = rng.random()
+        if i not in have or r < 0.25:
+            ops.append([rng.choice(["asend", "asend", "athrow", "aclose"]), i])
+            have.add(i)
+        elif r < 0.75:
+            ops.append(["send", i])
+        elif r < 0.93:
+            ops.append(["throw", i])
+        else:
+            ops.append(["close", i])
+    return ops
+
+
+def gen(rng, tier):
+    quick = tier == "quick"
+    # 1. bounded-exhaustive: small bodies x all short histories
+    for kind in ("coro", "gen"):
+        for b in bodies(kind, 1 if quick else 2, True):
+            for h in plain_histories(3 if quick else 4):
+                yield dict(b, ops=h)
+    for b in bodies("agen", 1, True):
+        for d in (2, 3) if quick else (2, 3, 4):
+            for h in agen_histories(d, 1):
+                yield dict(b, ops=h)
+    if not quick:
+        for b in bodies("agen", 2, False):
+            for d in (2, 3):
+                for h in agen_histories(d, 1):
+                    yield dict(b, ops=h)
+    # two interleaved awaitables on the bodies that can be suspended in an await and at a yield
+    two = [{"kind": "agen", "main": [["yield"], ["await", 1, 0], ["yield"]], "mterm": "return",
+            "handler": [[["await", 1, 0], ["yield"]], "return"]},
+           {"kind": "agen", "main": [["await", 1, 1], ["yield"]], "mterm": "raise", "handler": None}]
+    for b in two:
+        for h in agen_histories(3 if quick else 4, 2):
+            yield dict(b, ops=[["asend", 0], ["send", 0]] + h)
+        for h in agen_histories(4 if quick else 5, 1):
+            yield dict(b, ops=[["asend", 0], ["send", 0]] + h)
+    # 2. random bodies and longer histories
+    for i in range(3000 if quick else 20000):
+        kind = ("agen", "agen", "coro", "gen")[i % 4]
+        b = random_body(rng, kind)
+        yield dict(b, ops=random_history(rng, kind, rng.choice([3, 5, 8, 12])))
+    # 3. malformed: operations on empty awaitable slots
+    for h in ([["send", 0]], [["throw", 1], ["asend", 1], ["close", 0], ["send", 1]]):
+        yield {"kind": "agen", "main": [["yield"]], "mterm": "return", "handler": None, "ops": h}
+
+
+def nontrivial(case, ob):
+    return len(case["ops"]) >= 2 and isinstance(ob, list) and any(
+        isinstance(s, list) and len(s) == 4 and s[3][1] for s in ob)
+
+
+def shrink(case):
+    ops = case["ops"]
+    for i in reversed(range(len(ops))):
+        yield dict(case, ops=ops[:i] + ops[i + 1:])
+    if case["handler"] is not None:
+        yield dict(case, handler=None)
+        hs, ht = case["handler"]
+        for i in range(len(hs)):
+            yield dict(case, handler=[hs[:i] + hs[i + 1:], ht])
+    for i in range(len(case["main"])):
+        yield dict(case, main=case["main"][:i] + case["main"][i + 1:])
+    if case["mterm"] == "raise":
+        yield dict(case, mterm="return")
+
+
+def signature(stream, case, msg):
+    if case.get("kind") == "agen" and "the object is suspended" in msg and "say 'new'" in msg:
+        return "F12"
+    return None
+
+
+PROP = Prop(
+    pid="C20",
+    props_v="theories/Props/C20.v",
+    theory_files=["theories/Coro/CoroState.v", "theories/Coro/CoroStateCorr.v",
+                  "theories/Coro/CoroStateProofs.v"],
+    streams=[
+        Stream(name="state", imports=["Coro.CoroState", "Coro.CoroStateCorr"], run="run",
+               input_type="kind * body * list op",
+               gen=gen, impl=impl, to_coq=to_coq, oracle=oracle, nontrivial=nontrivial,
+               shrink=shrink, corr_name="coro_is_new/suspended/finished + CPython 3.12.1 object state"),
+    ],
+    rule="bodies of the three kinds over {observe, await an n-token awaitable (n=0..2, optionally swallowing "
+         "one thrown exception), yield, return, raise} with an optional except-BaseException handler; "
+         "bounded-exhaustive: every body with <=1 (thorough: <=2) main statements and one of 4-5 handlers x every "
+         "send/throw/close history up to length 3 (4); every async-generator body with <=1 statement x every "
+         "history of 2..3 (4) operations on one asend/athrow/aclose awaitable (thorough: also <=2 statements x "
+         "2..3 operations); two bodies (started, at their first yield) x every history of 3 (4) "
+         "operations on two interleaved awaitables and of 4 (5) operations on one; plus random bodies (<=4+3 statements) and histories (3..12 operations, two "
+         "awaitable slots); a case is non-trivial when it has >=2 operations and the body started; "
+         "distinct = distinct canonical JSON of the input",
+    signature=signature,
+    assumptions=["the object state machine of CPython 3.12.1 (gi_frame_state, ag_running_async, ag_closed, "
+                 "asend/athrow awaitable states) is modelled by hand from genobject.c and tied to the interpreter "
+                 "by this correspondence only",
+                 "ground truth: new = no body code has run and the object was not closed; a throw()/close() "
+                 "delivered before the first step finishes the object without running any body code",
+                 "re-entrant operations on an object from inside its own running body are not generated"],
+)
